@@ -46,8 +46,8 @@ Proof. unfold wf_agram. repeat split; ag_tac. Qed.
 Lemma prod_span_action_layout_refuted : prod_span_action_layout_refuted_stmt.
 Proof.
   exists ps_lay, ps_ag. split; [exact ps_wf_agram|]. split; [exact ps_wf_layout|].
-  intros fa. exists (ast_of fa false ps_lay ps_ag), (warnings_of fa false ps_lay ps_ag).
-  split; [destruct fa; vm_compute; reflexivity|].
+  intros fa fu. exists (ast_of fa false ps_lay ps_ag), (warnings_of fa false fu ps_lay ps_ag).
+  split; [destruct fa, fu; vm_compute; reflexivity|].
   unfold prod_spans_core. intros H.
   assert (E : map p_span (a_prods (ast_of fa false ps_lay ps_ag)) = [(8, 26)]) by (destruct fa; vm_compute; reflexivity).
   destruct (a_prods (ast_of fa false ps_lay ps_ag)) as [|pr [|pr' prs]]; try discriminate E.
@@ -58,7 +58,7 @@ Qed.
 (* the same pair with the repaired code: the span (8, 15) selects  'a' 'b'  *)
 Example ps_fixed_example :
   forall fa, exists A w pr,
-    run_case true fa true KOriginal (print ps_lay ps_ag) = Done (TResult A [] w) /\
+    run_case true fa true true KOriginal (print ps_lay ps_ag) = Done (TResult A [] w) /\
     a_prods A = [pr] /\ sel (print ps_lay ps_ag) (p_span pr) (s "'a' 'b'").
 Proof.
   intros fa. destruct fa; vm_compute; do 3 eexists; (split; [reflexivity|split; reflexivity]).
@@ -155,7 +155,7 @@ Definition action_literal_brace_refuted_stmt : Prop :=
     Forall (fun a => ~ naive_braces_balanced a) (ag_actions ag) /\
     forall fa fp, exists A pr t,
       (* accepted: no error, no warning *)
-      run_case true fa fp KGrmtools (print l ag) = Done (TResult A [] (Done [])) /\
+      run_case true fa fp true KGrmtools (print l ag) = Done (TResult A [] (Done [])) /\
       (* two productions were written; the grammar has one, and only the token 'a' *)
       List.length (flat_map ar_prods (ag_rules ag)) = 2 /\
       a_prods A = [pr] /\ a_tokens A = [s "a"] /\
@@ -175,7 +175,7 @@ Proof.
     + exact I.
   - vm_compute. repeat constructor; discriminate.
   - intros fa fp.
-    destruct (run_case true fa fp KGrmtools (print alb_lay alb_ag)) as [[|A e w]| |] eqn:E;
+    destruct (run_case true fa fp true KGrmtools (print alb_lay alb_ag)) as [[|A e w]| |] eqn:E;
       try (exfalso; destruct fa, fp; vm_compute in E; discriminate E).
     assert (Hp : exists pr t, e = [] /\ w = Done [] /\ a_prods A = [pr] /\ a_tokens A = [s "a"] /\
                    p_action pr = Some (s """{"".to_string() } | 'b' { ""}"".to_string()", t)).
@@ -199,7 +199,7 @@ Definition atl_g1 : str := s "%%" ++ nl ++ s "S -> u32 /* c */ : 'a';".
 Definition atl_g2 : str := s "%%" ++ nl ++ s "S -> u32 // x: y" ++ nl ++ s " : 'a';".
 
 Definition types_of (k : ykind) (src : str) : option (list (option str)) :=
-  match run_case true false true k src with
+  match run_case true false true true k src with
   | Done (TResult A [] (Done [])) => Some (map r_actiont (a_rules A))
   | _ => None
   end.
@@ -213,7 +213,7 @@ Definition actiontype_layout_refuted_stmt : Prop :=
   types_of KGrmtools atl_g0 = Some [Some (s "u32")] /\
   types_of KGrmtools atl_g1 = Some [Some (s "u32 /* c */")] /\
   (* the colon inside the comment ends the type: the grammar is rejected *)
-  (exists A e es w, run_case true false true KGrmtools atl_g2 = Done (TResult A (e :: es) w)).
+  (exists A e es w, run_case true false true true KGrmtools atl_g2 = Done (TResult A (e :: es) w)).
 
 Lemma actiontype_layout_refuted : actiontype_layout_refuted_stmt.
 Proof.
